@@ -176,7 +176,7 @@ int main(void) {
 #else
   VP_QUIESCE2(THR(a), THR(b))
 #endif
-  VP_ASSERT(!vp_deadlock, "lost hand-off: every unfinished thread spins on a lane/ticket counter and nothing changes");
+  VP_ASSERT(!vp_deadlock, "lost hand-off / lost wake-up: every unfinished thread spins on a lane or ticket counter (or sleeps in the bounded-queue monitor without being notified) and nothing changes");
   __CPROVER_assume(!vp_unfinished);
 
   /* ---- quiescent state */
